@@ -29,6 +29,52 @@ pub(super) fn detect_cycles(ast: &Ast, diagnostics: &mut Diagnostics) {
     }
 }
 
+/// Reports an error for every interface that inherits from itself (directly, or through other interfaces).
+/// This must run before anything that walks up the inheritance tree, since those walks would never terminate.
+pub(super) fn detect_inheritance_cycles(ast: &Ast, diagnostics: &mut Diagnostics) {
+    // Searches the bases of `current` (depth first) for a path leading back to `target`.
+    // `path` holds the interfaces between `target` and `current`; `visited` prevents checking an interface twice.
+    fn find_path_to<'a>(
+        target: &Interface,
+        current: &'a Interface,
+        path: &mut Vec<&'a Interface>,
+        visited: &mut HashSet<String>,
+    ) -> bool {
+        for base in current.base_interfaces() {
+            if std::ptr::eq(base, target) {
+                return true;
+            }
+            if visited.insert(base.module_scoped_identifier()) {
+                path.push(base);
+                if find_path_to(target, base, path, visited) {
+                    return true;
+                }
+                path.pop();
+            }
+        }
+        false
+    }
+
+    for node in ast.as_slice() {
+        let Node::Interface(interface_ptr) = node else { continue };
+        let interface = interface_ptr.borrow();
+
+        let mut path = Vec::new();
+        if find_path_to(interface, interface, &mut path, &mut HashSet::new()) {
+            let identifier = interface.module_scoped_identifier();
+            let mut cycle = identifier.clone();
+            for link in path {
+                cycle = cycle + " -> " + &link.module_scoped_identifier();
+            }
+            cycle = cycle + " -> " + &identifier;
+
+            Diagnostic::new(Error::CyclicInheritance { identifier, cycle })
+                .set_span(interface.span())
+                .push_into(diagnostics);
+        }
+    }
+}
+
 /// This trait is implemented on a type if and only if it is possible for that type to cause a cycle.
 /// It contains a single method, used to check the type for cycles with the help of a [`CycleDetector`].
 trait CycleCandidate<'a>: Type + NamedSymbol {
